@@ -908,6 +908,22 @@ func (tr *Tr) assignTargets(fr *frame, c *Contract, env *specEnv) map[string]*as
 			get("*").all = true
 		case a == "alloc":
 			// allocation is always allowed
+		case strings.HasPrefix(a, "window(") && strings.HasSuffix(a, ")"):
+			// the elements visible through slice x: indices [off, off+len) of its backing array
+			s, err := parseSpec(a[7 : len(a)-1])
+			if err != nil {
+				vfail("assigns %s: %v", a, err)
+			}
+			v, err := env.evalVal(s)
+			if err != nil {
+				vfail("assigns %s: %v", a, err)
+			}
+			st, ok := v.Ty.Underlying().(*types.Slice)
+			if !ok {
+				vfail("assigns window(x): x must be a slice")
+			}
+			t := get(tr.C.elemKey(tr.C.sortOf(st.Elem())))
+			t.inner = append(t.inner, []string{app("s.arr", v.T), app("s.off", v.T), app("bvadd", app("s.off", v.T), app("s.len", v.T))})
 		case strings.HasPrefix(a, "elems(") && strings.HasSuffix(a, ")"):
 			s, err := parseSpec(a[6 : len(a)-1])
 			if err != nil {
@@ -952,13 +968,9 @@ func (tr *Tr) assignTargets(fr *frame, c *Contract, env *specEnv) map[string]*as
 			if err != nil {
 				vfail("assigns %s: %v", a, err)
 			}
-			ref := v.T
-			if _, ok := v.Ty.Underlying().(*types.Slice); ok {
-				ref = app("s.arr", v.T)
-			}
 			key, _ := env.ghostKey(gm)
 			t := get(key)
-			t.refs = append(t.refs, ref)
+			t.refs = append(t.refs, refOf(v))
 		case strings.HasPrefix(a, "released(") && strings.HasSuffix(a, ")"):
 			s, err := parseSpec(a[9 : len(a)-1])
 			if err != nil {
